@@ -85,7 +85,7 @@ func c15SdkSteps(c *ctxT, b *strings.Builder) {
 		c.facts["C15."+name] = xs
 	}
 	missing := func(why string) {
-		for _, n := range []string{"sdkCancelSteps", "sdkDeleteProposalSteps", "sdkChargeSteps", "sdkChargeBody", "sdkChargeCoin", "sdkChargeDest", "sdkRefundCallback", "sdkBurnSteps", "sdkBurnCallback", "sdkDeleteVotesSteps", "sdkSubmitSteps", "sdkSubmitLoop", "sdkAddVoteSteps"} {
+		for _, n := range []string{"sdkCancelSteps", "sdkDeleteProposalSteps", "sdkChargeSteps", "sdkChargeBody", "sdkChargeCoin", "sdkChargeDest", "sdkRefundCallback", "sdkBurnSteps", "sdkBurnCallback", "sdkDeleteVotesSteps", "sdkSubmitSteps", "sdkSubmitLoop", "sdkAddVoteSteps", "sdkVoteWeightedSteps", "sdkVoteWeightedLoop", "sdkWeightedOptionValid"} {
 			list(n, "SDK gov keeper not readable: "+why, []string{"other:<" + why + ">"})
 		}
 		fmt.Fprintf(b, "def sdkGovSource : String := %s\n\n", leanStr("missing: "+why))
@@ -358,6 +358,51 @@ func c15SdkSteps(c *ctxT, b *strings.Builder) {
 		}
 	}
 	list("sdkAddVoteSteps", "SDK x/gov/keeper/vote.go AddVote: its top-level statements in source order (plain error checks skipped)", vtop)
+
+	// ---- msgServer.VoteWeighted (round 5): the validation of the weighted options BEFORE AddVote, top level and loop body
+	vwTop, vwLoop := []string{"other:<msgServer.VoteWeighted not found>"}, []string{"other:<msgServer.VoteWeighted not found>"}
+	if fd := c.findFunc(rel, "msgServer", "VoteWeighted"); fd != nil && fd.Body != nil {
+		vwTop, vwLoop = nil, nil
+		for _, st := range fd.Body.List {
+			if rs, ok := st.(*ast.RangeStmt); ok && squash(c.src(rs.X)) == "msg.Options" && rs.Value != nil && c.src(rs.Value) == "option" {
+				vwTop = append(vwTop, "optionLoop")
+				vwLoop = c15TagStmts(c, rs.Body.List, []c15Rule{
+					{"rejectInvalidOption", []string{"if !option.IsValid() {", "return nil, errors.Wrap(govtypes.ErrInvalidVote"}},
+					{"parseWeight", []string{"weight, err := math.LegacyNewDecFromStr(option.Weight)"}},
+					{"total+=weight", []string{"totalWeight = totalWeight.Add(weight)"}},
+					{"rejectDuplicate", []string{"if usedOptions[option.Option] {", "return nil, errors.Wrap(govtypes.ErrInvalidVote"}},
+					{"markUsed", []string{"usedOptions[option.Option] = true"}},
+				})
+				continue
+			}
+			vwTop = append(vwTop, c15TagStmts(c, []ast.Stmt{st}, []c15Rule{
+				{"voterAddr", []string{"accAddr, accErr := k.authKeeper.AddressCodec().StringToBytes(msg.Voter)"}},
+				{"rejectBadAddr", []string{"if accErr != nil {", "return nil"}},
+				{"rejectEmpty", []string{"if len(msg.Options) == 0 {", "return nil, errors.Wrap("}},
+				{"total0", []string{"totalWeight := math.LegacyNewDec(0)"}},
+				{"used0", []string{"usedOptions := make(map[v1.VoteOption]bool)"}},
+				{"rejectTotalGT1", []string{"if totalWeight.GT(math.LegacyNewDec(1)) {", "return nil, errors.Wrap(govtypes.ErrInvalidVote"}},
+				{"rejectTotalLT1", []string{"if totalWeight.LT(math.LegacyNewDec(1)) {", "return nil, errors.Wrap(govtypes.ErrInvalidVote"}},
+				{"sdkCtx", []string{"ctx := sdk.UnwrapSDKContext(goCtx)"}},
+				{"addVote", []string{"err := k.Keeper.AddVote(ctx, msg.ProposalId, accAddr, msg.Options, msg.Metadata)"}},
+				{"return", []string{"return &v1.MsgVoteWeightedResponse{}, nil"}},
+			})...)
+		}
+	}
+	list("sdkVoteWeightedSteps", "SDK x/gov/keeper/msg_server.go msgServer.VoteWeighted: its top-level statements in source order (plain error checks skipped)", vwTop)
+	list("sdkVoteWeightedLoop", "… the body of its loop over the weighted options", vwLoop)
+	// WeightedVoteOption.IsValid (x/gov/types/v1/vote.go): the conditions under which it returns false, in source order
+	isValid := []string{"other:<WeightedVoteOption.IsValid not found>"}
+	if vrel, err := filepath.Rel(c.repo, filepath.Join(mdir, "x", "gov", "types", "v1")); err == nil {
+		if fd := c.findFunc(vrel, "WeightedVoteOption", "IsValid"); fd != nil && fd.Body != nil {
+			isValid = c15TagStmts(c, fd.Body.List, []c15Rule{
+				{"parseWeight", []string{"weight, err := math.LegacyNewDecFromStr(w.Weight)"}},
+				{"falseUnlessPositiveAndAtMostOne", []string{"if !weight.IsPositive() || weight.GT(math.LegacyNewDec(1)) {", "return false"}},
+				{"return ValidVoteOption", []string{"return ValidVoteOption(w.Option)"}},
+			})
+		}
+	}
+	list("sdkWeightedOptionValid", "SDK x/gov/types/v1/vote.go WeightedVoteOption.IsValid: its statements in source order (the `err != nil` test returns false)", isValid)
 
 	// ---- RefundAndDeleteDeposits: `return keeper.IterateDeposits(ctx, proposalID, func(key, deposit) (bool, error) { … })`
 	var rtags []string
